@@ -16,6 +16,7 @@ import (
 	"github.com/dave/dst/decorator"
 
 	"verif/core"
+	"verif/gen"
 )
 
 // C18: object and scope graphs survive decoration and optional restoration.
@@ -49,6 +50,13 @@ var c18Pool = []struct{ Name, Src string }{
 	{"f8", "package p\n\ntype T struct{ next *T }\n\nfunc (t *T) M() *T { return t.next }\n"},
 	{"f9", "package p\n\nconst (\n\tc0 = iota\n\tc1\n)\n\nvar int = 3\n"},
 	{"f10", "package p\n\nimport fmt \"lib\"\n\nvar G = fmt.LibA + LibB\n"},
+	// import paths written as a raw string and with an escape sequence
+	{"f11", "package p\n\nimport `lib`\n\nimport f2 \"\\x66mt\"\n\nvar H = lib.LibB + f2.Sprint()\n"},
+}
+
+// c18CorpusTemplates: the canonical and the non-canonical corpus (sources that parse without errors).
+func c18CorpusTemplates() []gen.Template {
+	return append(append([]gen.Template{}, gen.Templates()...), gen.Load("noncanonical.txt")...)
 }
 
 type c18Case struct {
@@ -65,7 +73,7 @@ func init() {
 		Level: "model_checking",
 		Rule: "graph part: 15 object-rich sources (recursion, mutual recursion, forward references, labels, type-switch/range/select variables, iota groups, type parameters, receivers, closures, shadowing, unresolved names) plus every corpus template, parsed with object resolution: " +
 			"the decorator's Objects/Scopes/Nodes maps must be a graph isomorphism (shared objects, kind, name, data, declaration link, scope nesting and membership), and restoring with Extras must rebuild an isomorphic graph; files resolved against each other decorated one at a time, and an isolated declaration, keep every declaration link; " +
-			"package part: every non-empty subset of <=4 files of a 10-file pool (cross-file references, redeclarations, undeclared names, dot/renamed/failing imports, a mismatching package clause, a shadowed universe name) x importer {nil, map} x universe {nil, small scope}: " +
+			"package part: every non-empty subset of <=4 files of an 11-file pool (cross-file references, redeclarations, undeclared names, dot/renamed/failing imports, raw-string and escaped import paths, a mismatching package clause, a shadowed universe name) x importer {nil, map} x universe {nil, small scope}: " +
 			"dst.NewPackage on the decorated files (Unresolved filled from the images) vs go/ast.NewPackage on the originals: same package scope, same error multiset (positions aside), same remaining unresolved names and same resolutions; state = source / (file set, importer, universe)",
 		Assumptions:      []string{"go/ast.NewPackage and go/parser's object resolution of this toolchain are the reference"},
 		CrashIsViolation: true,
@@ -90,7 +98,7 @@ func init() {
 				return
 			}
 			if unit == len(c18Templates) {
-				for _, t := range c13Templates() {
+				for _, t := range c18CorpusTemplates() {
 					cs := c18Case{Mode: "graph", Template: "@" + t.Name}
 					ctx.State(cs.Template, true)
 					ctx.R.Transitions++
@@ -174,7 +182,7 @@ func c18Check(cs c18Case) core.Outcome {
 	}
 	var src string
 	if strings.HasPrefix(cs.Template, "@") {
-		for _, t := range c13Templates() {
+		for _, t := range c18CorpusTemplates() {
 			if "@"+t.Name == cs.Template {
 				src = t.Src
 			}
